@@ -109,6 +109,8 @@ class SingleShooting(SamplingMethod):
         for k in range(self.N):
             FF = FFs[k]
 
+            self.add_coupling_constraints(stage, opti, k)
+
             for l in range(self.M):
                 for c, meta, args in stage._constraints["integrator"]:
                     if k==0 and l==0 and not args["include_first"]: continue
